@@ -60,7 +60,7 @@ func transportScenario(prop string, bound int) *qx.Scenario {
 			}
 		})
 		armed, resumed := false, false
-		faults := []string{"err:6", "drop", "apply-drop"}
+		faults := []string{"err:-1", "err:6", "drop", "apply-drop"}
 		x.SetEnv(func() []qx.Action {
 			var acts []qx.Action
 			ps := c.Pending()
